@@ -13,7 +13,8 @@ CONSTANTS
     Chains = TRUE
     BoolOn = {"and", "or", "not"}
     IteOn = TRUE
-    CallOn = {"sub2", "subxy", "ratio", "pick", "loc", "nest", "kmul"}
+    CallOn = {"sub2", "subxy", "ratio", "pick", "loc", "nest", "kmul", "dflt"}
+    CallModes = {"pos", "kw", "kwrev", "mix", "def", "defkw"}
     AugOn = {"add", "mul"}
     PassOn = TRUE
     ChainOn = TRUE
